@@ -1230,3 +1230,206 @@ Proof.
   cbv zeta. split; [vm_compute; repeat constructor; cbn; intuition discriminate|]. split; [vm_compute; reflexivity|].
   split; [vm_compute; right; right; left; reflexivity|]. vm_compute. intro H. inversion H as [|x l Hn Hd]; subst. apply Hn. left. reflexivity.
 Qed.
+
+(* ================================================================================================================== *)
+(* Part 4: the names issued are expansions of the template; their substituted values carry no forbidden character      *)
+
+Definition gphase_ok (p : phase) : Prop :=
+  match p with PStatic _ _ g _ => lookup k_num g = None | PWild _ g _ _ => lookup k_num g = None | _ => True end.
+Definition inv_num (s : Filenames.st) : Prop := lookup k_num (vars s) = None /\ gphase_ok (ph s).
+
+(* [name] is what one alternative [item] of the template expands to in some namespace v that does not bind "num" *)
+Definition is_expansion (c : Filenames.cfg) (items : list str) (name : str) : Prop :=
+  exists item v taken n1 n', In item items /\ lookup k_num v = None /\ chosen c v taken n1 item name n'.
+
+Lemma wild_outcome_name : forall c wild g num v taken passes name s',
+  wild_outcome c wild g num v taken passes (RName name) s' ->
+  (exists item n1 n', In item wild /\ chosen c v taken n1 item name n') /\ vars s' = g /\ exists n' p', ph s' = PWild wild g n' p'.
+Proof.
+  intros c wild g num v taken passes name s' H. cbn in H. destruct H as [k [pre [item [post [n1 [n' [E [_ [C [S _]]]]]]]]]].
+  split; [exists item, n1, n'; split; [rewrite E; apply in_or_app; right; left; reflexivity|exact C]|]. subst s'. cbn. split; [reflexivity|eauto].
+Qed.
+
+Lemma static_outcome_name : forall c rest wild g num v taken name s',
+  static_outcome c rest wild g num v taken (RName name) s' ->
+  (exists item n1 n', In item (rest ++ wild) /\ chosen c v taken n1 item name n') /\ vars s' = g /\
+  ((exists rest' n', ph s' = PStatic rest' wild g n' /\ exists used, rest = used ++ rest') \/ exists n' p', ph s' = PWild wild g n' p').
+Proof.
+  intros c rest wild g num v taken name s' [H|[H|H]].
+  - destruct H as [pre [item [rest' [n1 [n' [name0 [E [R [_ [C S]]]]]]]]]]. inversion E; subst name0. split.
+    + exists item, n1, n'. split; [rewrite R; apply in_or_app; left; apply in_or_app; right; left; reflexivity|exact C].
+    + subst s'. cbn. split; [reflexivity|]. left. exists rest', n'. split; [reflexivity|]. exists (pre ++ [item]). rewrite R, <- app_assoc. reflexivity.
+  - destruct H as [n1 [_ W]]. apply wild_outcome_name in W. destruct W as [[item [m1 [m' [I C]]]] [V P]]. split.
+    + exists item, m1, m'. split; [apply in_or_app; right; exact I|exact C].
+    + split; [exact V|right; exact P].
+  - destruct H as [pre [item [rest' [n1 [e [E _]]]]]]. discriminate.
+Qed.
+
+Lemma request_expansion : forall c s b static wild name s',
+  legacy_reset c = false -> follows static wild (ph s) -> inv_num s -> lookup k_num (update (vars s) b) = None ->
+  request c s b = (RName name, s') -> is_expansion c (static ++ wild) name /\ inv_num s'.
+Proof.
+  intros c s b static wild name s' Hr F [I1 I2] Hn H. destruct (ph s) as [files|rest w g num|w g num passes|] eqn:P; cbn [follows gphase_ok] in *.
+  - pose proof (first_request c s b files static wild _ _ Hr P F Hn H) as O. apply static_outcome_name in O.
+    destruct O as [[item [n1 [n' [I C]]]] [V Q]]. split.
+    + exists item, (update (vars s) b), (inval s), n1, n'. repeat split; assumption.
+    + split; [rewrite V; exact Hn|]. destruct Q as [[rest' [m [Q _]]]|[m [p Q]]]; rewrite Q; cbn; exact Hn.
+  - destruct F as [-> [used U]]. pose proof (static_request c s b rest wild g num _ _ Hr P Hn H) as O. apply static_outcome_name in O.
+    destruct O as [[item [n1 [n' [I C]]]] [V Q]]. split.
+    + exists item, (update (vars s) b), (inval s), n1, n'. split; [|split; assumption]. rewrite U, <- app_assoc. apply in_or_app. right. exact I.
+    + split; [rewrite V; exact I2|]. destruct Q as [[rest' [m [Q _]]]|[m [p Q]]]; rewrite Q; cbn; exact I2.
+  - subst w. pose proof (wildcard_request c s b wild g num passes _ _ Hr P Hn H) as O. apply wild_outcome_name in O.
+    destruct O as [[item [n1 [n' [I C]]]] [V [m [p Q]]]]. split.
+    + exists item, (update (vars s) b), (inval s), n1, n'. split; [apply in_or_app; right; exact I|split; assumption].
+    + split; [rewrite V; exact I2|rewrite Q; cbn; exact I2].
+  - unfold request in H. rewrite P in H. discriminate.
+Qed.
+
+Lemma dead_no_names : forall c reqs s out s', ph s = PDead -> run c s reqs = (out, s') -> names_of out = [].
+Proof.
+  intros c reqs. induction reqs as [|b reqs IH]; intros s out s' D H; cbn [run] in H; [inversion H; reflexivity|].
+  unfold request in H. rewrite D in H. cbn iota in H.
+  match type of H with context [run c ?s1 reqs] => destruct (run c s1 reqs) as [o2 s2] eqn:R2 end.
+  inversion H; subst. cbn [names_of]. exact (IH _ _ _ eq_refl R2).
+Qed.
+
+Definition keeps_num (b : list (str * str)) : Prop := forall v, lookup k_num v = None -> lookup k_num (update v b) = None.
+
+Lemma run_expansion : forall c static wild reqs s out s',
+  legacy_reset c = false -> follows static wild (ph s) -> inv_num s -> Forall keeps_num reqs ->
+  run c s reqs = (out, s') -> forall name, In name (names_of out) -> is_expansion c (static ++ wild) name.
+Proof.
+  intros c static wild reqs. induction reqs as [|b reqs IH]; intros s out s' Hr F I K H name Hin; cbn [run] in H.
+  - inversion H; subst. destruct Hin.
+  - destruct (request c s b) as [r s1] eqn:R1. destruct (run c s1 reqs) as [o2 s2] eqn:R2. inversion H; subst; clear H.
+    inversion K as [|x l K1 K2]; subst. pose proof (request_terminates_or_errors _ _ _ _ _ R1) as T.
+    destruct r as [f| |k|]; cbn [names_of] in Hin; cbn in T.
+    + destruct (request_expansion c s b static wild f s1 Hr F I (K1 _ (proj1 I)) R1) as [E I1].
+      destruct Hin as [<-|Hin]; [exact E|].
+      destruct (stages_in_order c s b _ s1 static wild F R1) as [F1 _]. exact (IH _ _ _ Hr F1 I1 K2 R2 _ Hin).
+    + destruct T as [_ [D _]]. rewrite (dead_no_names _ _ _ _ _ D R2) in Hin. destruct Hin.
+    + destruct T as [_ [D _]]. rewrite (dead_no_names _ _ _ _ _ D R2) in Hin. destruct Hin.
+    + contradiction.
+Qed.
+
+Lemma update_other : forall b v, Forall (fun kv => str_eqb k_num (fst kv) = false) b -> lookup k_num (update v b) = lookup k_num v.
+Proof.
+  intros b. unfold update. induction b as [|[k x] b IH]; intros v H; cbn [fold_left]; [reflexivity|]. inversion H; subst.
+  rewrite IH by assumption. apply lookup_set_other. assumption.
+Qed.
+
+Lemma bindings_keep_num : forall a, keeps_num (bindings a).
+Proof.
+  intros a v H. rewrite update_other; [exact H|]. unfold bindings. repeat (apply Forall_app; split).
+  - destruct (a_id a); [destruct (a_genid a)|]; repeat constructor.
+  - destruct (a_title a); repeat constructor.
+  - destruct (a_ref a) as [r|]; [destruct (nonempty_s r)|]; repeat constructor.
+  - destruct (nonempty_s (a_name a)); repeat constructor.
+Qed.
+
+(* the characters of a word-limited value: those of the value, and the blank that joins the words *)
+Lemma split_words_chars : forall s cur w ch, In w (split_words cur s) -> In ch w -> In ch cur \/ In ch s.
+Proof.
+  induction s as [|c s IH]; intros cur w ch Hw Hc; cbn [split_words] in Hw.
+  - destruct cur; [destruct Hw|]. destruct Hw as [<-|[]]. left. apply in_rev. exact Hc.
+  - destruct (is_space c).
+    + destruct cur as [|x cur].
+      * destruct (IH _ _ _ Hw Hc) as [[]|H]. right. right. exact H.
+      * destruct Hw as [<-|Hw]; [left; apply in_rev; exact Hc|]. destruct (IH _ _ _ Hw Hc) as [[]|H]. right. right. exact H.
+    + destruct (IH _ _ _ Hw Hc) as [[<-|H]|H]; [right; left; reflexivity|left; exact H|right; right; exact H].
+Qed.
+
+Lemma join_sp_chars : forall l ch, In ch (join_sp l) -> ch = 32 \/ exists w, In w l /\ In ch w.
+Proof.
+  induction l as [|w l IH]; intros ch H; [destruct H|]. cbn [join_sp] in H. destruct l as [|w2 l].
+  - right. exists w. split; [left; reflexivity|exact H].
+  - apply in_app_or in H. destruct H as [H|[H|H]].
+    + right. exists w. split; [left; reflexivity|exact H].
+    + left. symmetry. exact H.
+    + destruct (IH _ H) as [E|[w3 [A B]]]; [left; exact E|right; exists w3; split; [right; exact A|exact B]].
+Qed.
+
+Lemma limitf_chars : forall d v ch, In ch (limitf d v) -> ch = 32 \/ In ch v.
+Proof.
+  intros d v ch H. unfold limitf in H. destruct (join_sp_chars _ _ H) as [E|[w [A B]]]; [left; exact E|]. right.
+  apply firstn_In in A. destruct (split_words_chars _ _ _ _ A B) as [[]|C]. exact C.
+Qed.
+
+Definition clean (bad s : str) : Prop := forall ch, In ch s -> ~ In ch bad.
+
+(* one candidate: its text is the literals of the template alternative and the values of its variables; a value substituted for a
+   variable other than $num carries no forbidden character -- unless it is word-limited and the blank itself is forbidden (the
+   words are joined by blanks AFTER the substitution) *)
+Lemma chosen_clean : forall c bad sub v taken n1 nt name n',
+  legacy_words c = false -> cs c = Some (bad, sub) -> clean bad sub ->
+  wf_name nt -> NoDup (map fst (keys_of nt)) -> lookup k_num v = None ->
+  chosen c v taken n1 (pr_int nt) name n' ->
+  exists r, spec_expand c n1 v nt = Some r /\ name = add_extension (ext c) r /\
+            forall y w val, In (SVar y w) nt -> str_eqb y k_num = false -> var_value c n1 v y w = Some val ->
+                            (w = None \/ ~ In 32 bad) -> clean bad val.
+Proof.
+  intros c bad sub v taken n1 nt name n' Hw Hcs Hsub WF ND Hn [r [nb [E [N _]]]].
+  rewrite (expand_spec c Hw n1 v nt WF ND Hn) in E. destruct (spec_expand c n1 v nt) as [r0|] eqn:SE; [|discriminate].
+  inversion E; subst r0. exists r. split; [reflexivity|]. split; [exact N|].
+  intros y w val _ Hy HV Hc. unfold var_value in HV. rewrite Hy in HV. destruct (lookup y v) as [v0|]; [|discriminate].
+  inversion HV; subst val; clear HV. rewrite Hcs. intros ch Hin.
+  destruct w as [d|].
+  - destruct (limitf_chars _ _ _ Hin) as [E32|Hv].
+    + subst ch. destruct Hc as [Hc|Hc]; [discriminate|exact Hc].
+    + exact (charsub_clean bad sub v0 ch Hsub Hv).
+  - exact (charsub_clean bad sub v0 ch Hsub Hin).
+Qed.
+
+(* C13 names_clean: every file name issued by the assignment is the expansion of one alternative of the template, and its variable
+   parts -- the values substituted for $id, $title, $ref, $name, $jobname; not the literal text of the template, not $num -- contain
+   none of the configured forbidden characters (for a word-limited variable: provided the blank is not itself forbidden) *)
+Theorem names_clean : forall c doc st files bad sub tfiles static wild,
+  assign c doc = Some (AOk st files) ->
+  legacy_reset (r_fc c) = false -> legacy_words (r_fc c) = false ->
+  cs (r_fc c) = Some (bad, sub) -> clean bad sub ->
+  parse_filenames (r_template c) = Some tfiles -> split_files tfiles [] = (static, wild) ->
+  (forall item, In item (static ++ wild) -> exists nt, item = pr_int nt /\ wf_name nt /\ NoDup (map fst (keys_of nt))) ->
+  forall x f, In (x, Some f) files ->
+    exists nt v n1 r,
+      In (pr_int nt) (static ++ wild) /\ spec_expand (r_fc c) n1 v nt = Some r /\ f = add_extension (ext (r_fc c)) r /\
+      forall y w val, In (SVar y w) nt -> str_eqb y k_num = false -> var_value (r_fc c) n1 v y w = Some val ->
+                      (w = None \/ ~ In 32 bad) -> clean bad val.
+Proof.
+  intros c doc st files bad sub tfiles static wild A Hr Hw Hcs Hsub P S G x f Hin.
+  destruct (assign_spec c doc st files A) as [tf [out [P2 [R [_ [M _]]]]]]. rewrite P in P2. inversion P2; subst tf.
+  assert (Hf : In f (names_of out)).
+  { apply (in_map snd) in Hin. cbn [snd] in Hin. rewrite M in Hin. apply in_map_iff in Hin. destruct Hin as [f0 [E H0]]. inversion E; subst. exact H0. }
+  assert (X : is_expansion (r_fc c) (static ++ wild) f).
+  { apply (run_expansion (r_fc c) static wild _ _ _ _ Hr) with (s := gen_init c tfiles) (out := out) (s' := st); try exact R; try exact Hf.
+    - cbn. exact S.
+    - split; [reflexivity|exact Logic.I].
+    - apply Forall_forall. intros b Hb. apply in_map_iff in Hb. destruct Hb as [a [<- _]]. apply bindings_keep_num. }
+  destruct X as [item [v [taken [n1 [n' [I [Hn C]]]]]]]. destruct (G item I) as [nt [-> [WF ND]]].
+  destruct (chosen_clean _ _ _ _ _ _ _ _ _ Hw Hcs Hsub WF ND Hn C) as [r [SE [N CL]]].
+  exists nt, v, n1, r. repeat split; assumption.
+Qed.
+
+(* the clause fails for a word-limited variable when the blank is forbidden but the value holds other white space: the words are
+   split and joined by blanks after the forbidden characters were replaced.  title "A<nbsp>B C", template "$title(2)", bad-chars " ",
+   substitute "-": the candidate is "A B-C" *)
+Lemma names_clean_refuted :
+  let c := mk_fcfg [32] [45] [46;104;116;109;108] 0 0 0 in
+  let v := [(k_title, [65; 160; 66; 32; 67])] in
+  let nt := [SVar k_title (Some [50])] in
+  wf_name nt /\ spec_expand c 1 v nt = Some [65; 32; 66; 45; 67] /\ In 32 [65; 32; 66; 45; 67] /\ cs c = Some ([32], [45]).
+Proof.
+  cbv zeta. split; [|split; [vm_compute; reflexivity|split; [right; left; reflexivity|reflexivity]]].
+  constructor; [|constructor]. vm_compute. repeat split; repeat constructor.
+Qed.
+
+(* determinism: file names, file set and file contents are functions of (configuration, document, footnote list) *)
+Theorem render_deterministic : forall c1 c2 d1 d2 fn1 fn2 tmpl layout shows,
+  c1 = c2 -> d1 = d2 -> fn1 = fn2 ->
+  assign c1 d1 = assign c2 d2 /\
+  forall st1 st2 files1 files2, assign c1 d1 = Some (AOk st1 files1) -> assign c2 d2 = Some (AOk st2 files2) ->
+    files1 = files2 /\
+    render (the_fmap files1) tmpl layout shows d1 fn1 = render (the_fmap files2) tmpl layout shows d2 fn2.
+Proof.
+  intros c1 c2 d1 d2 fn1 fn2 tmpl layout shows -> -> ->. split; [reflexivity|]. intros st1 st2 files1 files2 H1 H2.
+  rewrite H1 in H2. inversion H2; subst. split; reflexivity.
+Qed.
